@@ -133,7 +133,18 @@ func init() {
 		}
 		return ex.clock
 	}
-	I[rtPkg+"BlockedForever"] = func(ex *Exec, a []Value) Value { return ex.ts.Bool(false) }
+	I[rtPkg+"Blocked"] = func(ex *Exec, a []Value) Value {
+		name := a[0].(string)
+		if ex.conc == nil {
+			return ex.ts.Bool(false)
+		}
+		if v, ok := ex.conc.blockedV[name]; ok {
+			return v
+		}
+		v := ex.ts.Var("blocked."+name, SBool)
+		ex.conc.blockedV[name] = v
+		return v
+	}
 	I[rtPkg+"Spawn"] = func(ex *Exec, a []Value) Value {
 		ex.spawn(a[0].(string), a[1].(*Closure))
 		return nil
